@@ -36,6 +36,10 @@ type vc11Suffix struct {
 	// icann is the number of trailing labels of name that form the
 	// ICANN-managed public suffix; 0 if the TLD is not on the list at all.
 	icann int
+
+	// outer is the number of labels of the private zone that name is itself
+	// registered under (go.dyndns.org under dyndns.org); 0 if there is none.
+	outer int
 }
 
 // vc11Suffixes is the table.  Every truncation of every entry is verified
@@ -47,6 +51,12 @@ var vc11Suffixes = []vc11Suffix{
 	{name: "pvt.k12.ma.us", class: "sfx-icann4", ps: 4, icann: 4},
 	{name: "github.io", class: "sfx-private", ps: 2, icann: 1},
 	{name: "test", class: "sfx-unlisted", ps: 1, icann: 0},
+
+	// Private suffixes registered under another private suffix: the zone
+	// between the inner suffix and the ICANN one is part of "the full private
+	// domain space" as well.
+	{name: "go.dyndns.org", class: "sfx-nested-private", ps: 3, icann: 1, outer: 2},
+	{name: "jp.eu.org", class: "sfx-nested-private", ps: 3, icann: 1, outer: 2},
 }
 
 // vc11Labels is the alphabet of the labels above the registrable one.
@@ -272,6 +282,16 @@ func vc11SelfCheck() (problem string) {
 					return fmt.Sprintf("publicsuffix.PublicSuffix(%q) = %q, %t; harness table says %q, %t",
 						tail, got, icann, want, wantICANN)
 				}
+
+				// A child of a tail inside the suffix has that tail as its
+				// public suffix.
+				if k < n.ps {
+					got, icann = publicsuffix.PublicSuffix("www." + tail.String())
+					if got != tail.String() || icann != wantICANN {
+						return fmt.Sprintf("publicsuffix.PublicSuffix(%q) = %q, %t; harness table says %q, %t",
+							"www."+tail.String(), got, icann, tail, wantICANN)
+					}
+				}
 			}
 		}
 	}
@@ -344,8 +364,9 @@ func vc11Universe(focus []vc11Name) (u []vc11Name) {
 				child := vc11Name{labels: append([]string{"www"}, tail.labels...), ps: tail.ps, icann: tail.icann}
 				if k >= v.ps {
 					child.ps, child.icann = v.ps, v.icann
-					add(child)
 				}
+
+				add(child)
 			}
 		}
 	}
